@@ -11,8 +11,8 @@ VARIABLE l
 Init == l = 1
 Next == /\ l <= Len(Events)
         /\ LET e == Events[l] IN
-             \/ ParamAccept(e)
-             \/ /\ Known(e) # "" /\ PrintT(<<"@@", "KF", Known(e), e.i>>)
+             IF ParamAccept(e) THEN TRUE
+             ELSE Known(e) # "" /\ PrintT(<<"@@", "KF", Known(e), e.i>>)
         /\ l' = l + 1
 Spec == Init /\ [][Next]_l
 Reached == PrintT(<<"@@", "REACHED", TLCGet("stats").diameter - 1>>)
